@@ -5,12 +5,15 @@
 package snaps
 
 import (
+	"flag"
 	"fmt"
 	"os"
 	"path/filepath"
 	"regexp"
 	"sort"
+	"strconv"
 	"strings"
+	"syscall"
 	"testing"
 
 	"pgregory.net/rapid"
@@ -60,6 +63,13 @@ type cleanScn struct {
 	MainDir string `json:"main_dir,omitempty"`
 	// CRLF > 0: after the preparation the file of config CRLF-1 is converted to CRLF line ends (a checkout with autocrlf); C07 only
 	CRLF int `json:"crlf_cfg_plus1,omitempty"`
+	// Cpu: the value of -test.cpu of the process. Only lists with ONE non-empty element are generated ("1,", ",2", "4,,"):
+	// package testing skips empty elements, every test still runs Count times
+	Cpu string `json:"test_cpu,omitempty"`
+	// FdHeadroom > 0: while Clean runs, the process may open only that many descriptors beyond those it holds already
+	// (RLIMIT_NOFILE lowered: container / ulimit environments). The scenario then addresses more snapshot files than that
+	// (test "TestZManyFiles", one call per file): Clean needs one descriptor at a time.
+	FdHeadroom int `json:"fd_headroom_during_clean,omitempty"`
 	// Dangling >= 0: the file of that config ends with an unterminated entry of an absent test (a truncated file); C07 only
 	Dangling int `json:"dangling_cfg"`
 }
@@ -182,6 +192,23 @@ func genCleanScn(t *rapid.T, col *collector, so scnOpts) cleanScn {
 		if rapid.IntRange(0, 2).Draw(t, "extra") > 0 {
 			s.Extra = append(s.Extra, it)
 		}
+	}
+	if rapid.IntRange(0, 5).Draw(t, "cpu") == 0 {
+		s.Cpu = rapid.SampledFrom([]string{"1", "1,", "4,", ",2", "1,,", " 2 ,"}).Draw(t, "cpulist")
+	}
+	if rapid.IntRange(0, 11).Draw(t, "manyfiles") == 0 {
+		nfiles := rapid.IntRange(36, 60).Draw(t, "nfiles")
+		s.FdHeadroom = 24
+		many := scnTest{Name: "TestZManyFiles", SkipAt: -1}
+		for i := 0; i < nfiles; i++ {
+			s.Cfgs = append(s.Cfgs, CfgSpec{Dir: "snaps", Filename: fmt.Sprintf("many%02d", i)})
+			ci := len(s.Cfgs) - 1
+			many.Calls = append(many.Calls, scnCall{Call: Call{API: "snap", Cfg: ci, Vals: []Val{strVal(fmt.Sprintf("value %d", i))}}})
+			if i == 0 || i == nfiles/2 || i == nfiles-1 {
+				s.Stale = append(s.Stale, staleEntry{Cfg: ci, ID: BS(entryID(names[ntests], 1+i%3)), Body: "stale in one of many files", Pos: i})
+			}
+		}
+		s.Tests = append(s.Tests, many)
 	}
 	if so.runFilter && rapid.IntRange(0, 5).Draw(t, "dangling") == 0 {
 		s.Dangling = rapid.IntRange(0, len(s.Cfgs)-1).Draw(t, "danglingcfg")
@@ -417,7 +444,18 @@ func (s cleanScn) run() (*scnRun, func(), error) {
 	if s.Sort {
 		opts = append(opts, CleanOpts{Sort: true})
 	}
+	restore := func() {}
+	if s.FdHeadroom > 0 {
+		restore = limitDescriptors(s.FdHeadroom)
+	}
+	if s.Cpu != "" {
+		fcpu := flag.Lookup("test.cpu")
+		oldCPU := fcpu.Value.String()
+		flag.Set("test.cpu", s.Cpu)
+		defer flag.Set("test.cpu", oldCPU)
+	}
 	out := runClean(s.RunOnly, s.Count, opts...)
+	restore()
 	r.afterClean = snapDir(root)
 	sum, err := parseSummary(out)
 	if err != nil {
@@ -425,6 +463,35 @@ func (s cleanScn) run() (*scnRun, func(), error) {
 	}
 	r.sum = sum
 	return r, cleanup, nil
+}
+
+// limitDescriptors lowers the soft RLIMIT_NOFILE to the descriptors currently open plus headroom; the returned function
+// restores the previous limit.
+func limitDescriptors(headroom int) func() {
+	var old syscall.Rlimit
+	if err := syscall.Getrlimit(syscall.RLIMIT_NOFILE, &old); err != nil {
+		return func() {}
+	}
+	open := 0
+	if es, err := os.ReadDir("/proc/self/fd"); err == nil {
+		for _, e := range es {
+			if n, err := strconv.Atoi(e.Name()); err == nil && n+1 > open {
+				open = n + 1 // the limit bounds the highest descriptor NUMBER
+			}
+		}
+	}
+	if open == 0 {
+		return func() {}
+	}
+	lim := old
+	lim.Cur = uint64(open + headroom)
+	if lim.Cur > old.Max {
+		return func() {}
+	}
+	if err := syscall.Setrlimit(syscall.RLIMIT_NOFILE, &lim); err != nil {
+		return func() {}
+	}
+	return func() { syscall.Setrlimit(syscall.RLIMIT_NOFILE, &old) }
 }
 
 func relTo(root, p string) string {
@@ -611,6 +678,12 @@ func classifyCleanScn(s cleanScn) ([]string, bool) {
 	}
 	if s.Dangling >= 0 {
 		cls = append(cls, "file_with_unterminated_last_entry")
+	}
+	if s.FdHeadroom > 0 {
+		cls = append(cls, "more_addressed_files_than_free_descriptors")
+	}
+	if strings.Contains(s.Cpu, ",") {
+		cls = append(cls, "test_cpu_list_with_empty_element")
 	}
 	if s.CRLF > 0 {
 		cls = append(cls, "preexisting_file_with_crlf_line_ends")
